@@ -52,10 +52,11 @@ func parse(str string, l ZitiQlListener, el antlr.ErrorListener, debug bool) {
 	stream := antlr.NewCommonTokenStream(lexer, 0)
 	p.SetInputStream(stream)
 
+	// the parser comes from a pool: whatever listeners its previous user left behind (that user's error listener among
+	// them) have to go in debug mode as well, or this parse reports its errors into somebody else's result
+	p.RemoveErrorListeners()
 	if debug {
 		p.AddErrorListener(antlr.NewDiagnosticErrorListener(true))
-	} else {
-		p.RemoveErrorListeners()
 	}
 
 	p.AddErrorListener(el)
